@@ -427,18 +427,11 @@ func cmdCheck(args []string) {
 					continue
 				}
 				var extra []string
-				for _, f := range kfs {
-					if f.Class == "" {
-						extra = append(extra, "false")
-						continue
-					}
-					env := r.O.Unit.bodyEnv(r.O.Unit.entry, r.O.Unit.fn)
-					env.paramsEntry = true
-					c, err := env.formula(f.Class)
-					if err != nil {
-						broken("known_findings.json: class of %s: %v", f.Obligation, err)
-					}
+				for _, c := range r.O.Classes {
 					extra = append(extra, "(not "+c+")")
+				}
+				if len(r.O.Classes) == 0 {
+					broken("known finding for %s has no evaluated class", n.Name)
 				}
 				q := r.O.query(extra, true)
 				r2 := sv.solve(q, solverOrder(q))
